@@ -370,8 +370,17 @@ def r16_1(ctx, rc):
                             problems.append(
                                 'omitted when None but default is %r' % (dv,))
                     else:
-                        # truthiness guard on the attribute itself
-                        if dv not in (False, None) or (
+                        # truthiness guard on the attribute itself: every
+                        # falsy value is omitted, so the default reproduces
+                        # it only for a bool flag
+                        from ..roles import IMMUTABLE_FIELDS
+                        if IMMUTABLE_FIELDS.get(attr) != 'bool flag':
+                            problems.append(
+                                'key %r is omitted whenever .%s is falsy '
+                                '(0, 0.0, False, "", [], {}) but the reader '
+                                'restores %r for a missing key' % (
+                                    k, attr, dv))
+                        elif dv not in (False, None) or (
                                 isinstance(v, ast.Constant) and
                                 v.value is not True):
                             problems.append(
@@ -600,6 +609,7 @@ def _filtered(ctx, v, W, cn, depth=0):
 
 def r16_3(ctx, rc):
     prog = ctx.prog
+    ctor_kind_agreement(ctx, rc)
     C = ctx.R.cache
     W = ctx.E.func(C + '.write')
     Rd = ctx.E.func(C + '.read_immutable')
@@ -958,3 +968,78 @@ RULES = [
     ('R16.6', 'every suboperation is serialised; non-root set is complete',
      r16_6),
 ]
+
+
+def ctor_kind_agreement(ctx, rc):
+    """Sibling construction sites of the cache agree on the container kind
+    of each parameter: where one site passes a set, no other passes a raw
+    decoded JSON value (JSON has no sets; the conversion is also the only
+    place where a non-iterable / unhashable shape is rejected while the file
+    is read, before anything is removed or built)."""
+    prog = ctx.prog
+    C = ctx.R.cache
+    init = prog.lookup_method(C, '__init__')
+    sites = [(f, c) for f in prog.funcs.values() for c in prog.calls_in(f)
+             for g in prog.resolve_call(c, f)
+             if isinstance(g, Func) and g.is_ctor_call and
+             g.cls_for_ctor == C]
+    if len(sites) < 2:
+        raise AnalysisError('only %d construction sites of %s' % (
+            len(sites), C))
+
+    def kind(e, f, cn, depth=0):
+        if _key_reads(e) and isinstance(e, (ast.Subscript, ast.Call)) and \
+                not (isinstance(e, ast.Call) and isinstance(
+                    e.func, ast.Name)):
+            return 'json'
+        e = ctx.H.subst(e, f, cn)
+        if isinstance(e, (ast.Set, ast.SetComp)):
+            return 'set'
+        if isinstance(e, ast.Call) and isinstance(e.func, ast.Name):
+            if e.func.id in ('set', 'frozenset'):
+                return 'set'
+            if e.func.id == 'dict':
+                return 'dict'
+            if e.func.id in ('list', 'sorted'):
+                return 'list'
+        if isinstance(e, (ast.Dict, ast.DictComp)):
+            return 'dict'
+        if isinstance(e, (ast.List, ast.ListComp)):
+            return 'list'
+        if _key_reads(e) and isinstance(e, (ast.Subscript, ast.Call)):
+            return 'json'
+        if isinstance(e, ast.Name) and e.id in f.params and depth < 3:
+            ks = set()
+            for caller, c2 in prog.callers().get(f.qualname, []):
+                b = prog.bind_args(c2, f).get(e.id)
+                cn2 = ctx.H.node_of(caller, c2)
+                if b is not None and not isinstance(b, list) and cn2:
+                    ks.add(kind(b, caller, cn2[0], depth + 1))
+            if len(ks) == 1:
+                return ks.pop()
+        return 'other'
+    per = {}
+    for f, c in sites:
+        cn = ctx.H.node_of(f, c)
+        if not cn:
+            continue
+        for p, a in prog.bind_args(c, init).items():
+            if isinstance(a, list):
+                continue
+            per.setdefault(p, []).append((kind(a, f, cn[0]), f, c))
+    for p, lst in sorted(per.items()):
+        kinds = {k for k, _, _ in lst}
+        key = 'container kind of %s(%s)' % (C, p)
+        if 'set' in kinds and 'json' in kinds:
+            bad = [(f, c) for k, f, c in lst if k == 'json'][0]
+            rc.violation(
+                'ctor-kind | %s | %s' % (C, p),
+                'parameter %s of %s is a set at %d construction site(s) but '
+                'the raw decoded JSON value at another: a malformed file is '
+                'no longer rejected while it is read, and the set operations '
+                'on the attribute fail later (clean: after the outputs were '
+                'removed)' % (p, C, len([1 for k, _, _ in lst
+                                         if k == 'set'])),
+                prog.loc(bad[0], bad[1]), key=key)
+        else:
+            rc.ok({'param': p, 'kinds': sorted(kinds)}, key=key)
